@@ -92,7 +92,9 @@ TReturn ==
 
 TRaise == IsEvent("raise") /\ BCallRaise /\ UNCHANGED everPto
 
-TMatch == TCall \/ TDeadline \/ TPrep \/ TAnswer \/ TReturn \/ TRaise
+TInstance == IsEvent("instance") /\ pc = "prep" /\ Cur.cls = ClassFor(Cur.system, Cur.backend) /\ UNCHANGED <<everPto, mvars, bvars>>
+
+TMatch == TCall \/ TInstance \/ TDeadline \/ TPrep \/ TAnswer \/ TReturn \/ TRaise
 
 Reject ==
     /\ t > 0 /\ l <= Len(Ev) /\ ~ENABLED TMatch
